@@ -477,3 +477,10 @@ H("C12", "vk_sd", "c12_command_max_response_delay", desc="a command whose respon
 
 for pr in ("C07", "C09"):
     H(pr, "vk_fsop", "c07_file_is_open_identity", desc="file_is_open == (same volume and same directory slot), whatever the other fields of the on-disk entry: an open, written, unflushed file is still recognised (cannot be opened twice / deleted, its slot is not handed out)", bounds="on-disk entry fully symbolic", timeout=600, cost=1)
+
+for n in ["c06_walk_find_fat16_any_chain", "c06_walk_find_fat32_any_chain"]:
+    for pr in ("C06", "C03"):
+        H(pr, "vk_fat", n, desc="find_directory_entry's walk over an abstract directory (per-block lookup and next_cluster stubbed; their contracts are c06_find_root16 and c05_next_cluster_*): visits exactly the chain's blocks in order (1-2 blocks per cluster), stops at the first hit or error and returns it, NotFound after the last block", bounds="chain of 1..3 clusters with symbolic topology over 4 clusters, symbolic per-block script", kani_args=_stubfat, timeout=900, cost=2, mem_gb=16)
+
+UW_LFN = [("iterate_fat16", r"chunks_exact", 8), ("iterate_fat16", r".", 3)]
+H("C17", "vk_fat", "c17_dir_lfn_runs", desc="iterate_dir_lfn over 5 fully symbolic directory slots (LfnBuffer ops stubbed): never crashes; a long name is reported for the k-th entry iff a complete, descending, 0x40-started fragment run with matching checksum directly precedes it", bounds="FAT16 root, slots 0-4 fully symbolic, k symbolic", kani_args=_stubfat, unwindset=UW_LFN, timeout=2400, cost=4, mem_gb=30)
